@@ -2,6 +2,8 @@ import FxVerif.Proofs.C04Acct
 import FxVerif.Proofs.C04EscStep
 import FxVerif.Proofs.C04Wd
 import FxVerif.Proofs.C04Claims
+import FxVerif.Proofs.C04Ibc
+import FxVerif.Proofs.C04Back
 import FxVerif.Gen.C04
 /-!
 # C04 — bridge solvency: holdings + in-flight = initial + deposits − executed withdrawals; operations move only what
@@ -41,6 +43,132 @@ theorem flows_match_code :
     (∀ g c u n, calls (addBridgeFee .moduleOwned g c (U u) n) = addUnbatchedTxBridgeFee_other) := by
   refine ⟨?_, ?_, ?_, ?_, ?_, ?_, ?_, ?_, ?_, ?_, ?_, ?_, ?_, ?_, ?_, ?_, ?_, ?_⟩ <;> intros <;>
     first | rfl | (rename_i b; cases b <;> rfl)
+
+open FxVerif.Gen.C04 in
+/-- **translator tie, arguments included**: for every branch of the anchored Go functions the regenerated list of keeper
+calls WITH their module-account, account and coins / contract expressions (`Gen.C04.*_sigs`), interpreted under the
+environment that says what the Go variables of that function denote (`envBridgeToken`, `envConversion`, `envFee`,
+`envErc20`, `envIbcIn`, `envIbcOut`), IS the flow the ledger model runs — same primitives, same accounts, same
+denominations, same order.  A call that names another module account, another party or another coin variable (or an
+expression the translator does not know: `.other`) makes the interpretation differ or fail. -/
+theorem flows_interpret_code :
+    (∀ g c h n, interp (envBridgeToken .fx g c h) n depositBridgeToken_fx_sigs = some (depositBridgeToken .fx g c h n)) ∧
+    (∀ g c h n, interp (envBridgeToken .moduleOwned g c h) n depositBridgeToken_nativeCoin_sigs = some (depositBridgeToken .moduleOwned g c h n)) ∧
+    (∀ g c h n, interp (envBridgeToken .externalOwned g c h) n depositBridgeToken_nativeERC20_sigs = some (depositBridgeToken .externalOwned g c h n)) ∧
+    (∀ g c h n, interp (envBridgeToken .fx g c h) n withdrawBridgeToken_fx_sigs = some (withdrawBridgeToken .fx g c h n)) ∧
+    (∀ g c h n, interp (envBridgeToken .moduleOwned g c h) n withdrawBridgeToken_nativeCoin_sigs = some (withdrawBridgeToken .moduleOwned g c h n)) ∧
+    (∀ g c h n, interp (envBridgeToken .externalOwned g c h) n withdrawBridgeToken_nativeERC20_sigs = some (withdrawBridgeToken .externalOwned g c h n)) ∧
+    (∀ g c h n b, interp (envConversion g c h b) n conversionCoin_fx_sigs = some (conversionCoin .fx g c h n b)) ∧
+    (∀ g c h n b, interp (envConversion g c h b) n conversionCoin_nativeERC20_sigs = some (conversionCoin .externalOwned g c h n b)) ∧
+    (∀ g c h n, interp (envConversion g c h false) n conversionCoin_baseToBridge_sigs = some (conversionCoin .moduleOwned g c h n false)) ∧
+    (∀ g c h n, interp (envConversion g c h true) n conversionCoin_bridgeToBase_sigs = some (conversionCoin .moduleOwned g c h n true)) ∧
+    (∀ g s r n, interp (envErc20 g s r) n convertCoinNativeCoin_other_sigs = some (convertCoin .moduleOwned g s r n)) ∧
+    (∀ g s r n, interp (envErc20 g s r) n convertCoinNativeCoin_fx_sigs = some (convertCoin .fx g s r n)) ∧
+    (∀ g s r n, interp (envErc20 g s r) n convertCoinNativeERC20_sigs = some (convertCoin .externalOwned g s r n)) ∧
+    (∀ g s r n, interp (envErc20 g s r) n convertERC20NativeCoin_other_sigs = some (convertERC20 .moduleOwned g s r n)) ∧
+    (∀ g s r n, interp (envErc20 g s r) n convertERC20NativeCoin_fx_sigs = some (convertERC20 .fx g s r n)) ∧
+    (∀ g s r n, interp (envErc20 g s r) n convertERC20NativeToken_sigs = some (convertERC20 .externalOwned g s r n)) ∧
+    (∀ g c h n, interp (envFee .fx g c h) n addUnbatchedTxBridgeFee_origin_sigs = some (addBridgeFee .fx g c h n)) ∧
+    (∀ g c h n, interp (envFee .externalOwned g c h) n addUnbatchedTxBridgeFee_origin_sigs = some (addBridgeFee .externalOwned g c h n)) ∧
+    (∀ g c h n, interp (envFee .moduleOwned g c h) n addUnbatchedTxBridgeFee_other_sigs = some (addBridgeFee .moduleOwned g c h n)) ∧
+    (∀ g h n, interp (envIbcIn g h) n ibcCoinToBaseCoin_voucher_sigs = some (ibcCoinToBaseCoin g h n)) ∧
+    ibcCoinToBaseCoin_notVoucher_sigs = [] ∧
+    (∀ g h n, interp (envIbcOut g h) n baseCoinToIBCCoin_sigs = some (baseCoinToIBCCoin g h n)) := by
+  refine ⟨?_, ?_, ?_, ?_, ?_, ?_, ?_, ?_, ?_, ?_, ?_, ?_, ?_, ?_, ?_, ?_, ?_, ?_, ?_, ?_, ?_, ?_⟩ <;> intros <;>
+    first | rfl | (rename_i b; cases b <;> rfl)
+
+open FxVerif.Gen.C04 in
+/-- **translator tie for the refund path, the older conversion system and the precompile's token intake**: the regenerated
+call lists of `bridgeCallTransferCoins` (mint unless origin, unlock to the refund address), of erc20
+`ConvertDenomToTarget` with the three branches each of `convertNativeCoin` / `convertNativeERC20`, and of the precompile
+keeper's `convertERC20` (bank part), interpreted, ARE the model's `bridgeCallRefundCoin`, `convertDenom` (every shape:
+base → alias, alias → base, alias → alias; both ownership kinds) and the bank part of `precompileTokenIn`. -/
+theorem flows_interpret_code_conversions :
+    (∀ g c r n, interp (envRefund .fx g c r) n bridgeCallTransferCoins_unlock_sigs = some (bridgeCallRefundCoin .fx g c r n)) ∧
+    (∀ g c r n, (interp (envRefund .moduleOwned g c r) n bridgeCallTransferCoins_mint_sigs).map
+        (· ++ convertDenom .moduleOwned g r n (.chain c) .base) = some (bridgeCallRefundCoin .moduleOwned g c r n)) ∧
+    (∀ g c r n, (interp (envRefund .externalOwned g c r) n bridgeCallTransferCoins_unlock_sigs).map
+        (· ++ convertDenom .externalOwned g r n (.chain c) .base) = some (bridgeCallRefundCoin .externalOwned g c r n)) ∧
+    (∀ g h n c, interpDenom (envDenom g h .base (.chain c)) n convertDenomToTarget_sigs convertNativeCoin_fromBase_sigs =
+        some (convertDenom .moduleOwned g h n .base (.chain c))) ∧
+    (∀ g h n c, interpDenom (envDenom g h (.chain c) .base) n convertDenomToTarget_sigs convertNativeCoin_toBase_sigs =
+        some (convertDenom .moduleOwned g h n (.chain c) .base)) ∧
+    (∀ g h n c d, interpDenom (envDenom g h (.chain c) (.chain d)) n convertDenomToTarget_sigs convertNativeCoin_alias_sigs =
+        some (convertDenom .moduleOwned g h n (.chain c) (.chain d))) ∧
+    (∀ g h n c, interpDenom (envDenom g h .base (.chain c)) n convertDenomToTarget_sigs convertNativeERC20_fromBase_sigs =
+        some (convertDenom .externalOwned g h n .base (.chain c))) ∧
+    (∀ g h n c, interpDenom (envDenom g h (.chain c) .base) n convertDenomToTarget_sigs convertNativeERC20_toBase_sigs =
+        some (convertDenom .externalOwned g h n (.chain c) .base)) ∧
+    (∀ g h n c d, interpDenom (envDenom g h (.chain c) (.chain d)) n convertDenomToTarget_sigs convertNativeERC20_alias_sigs =
+        some (convertDenom .externalOwned g h n (.chain c) (.chain d))) ∧
+    convertDenomToTarget_same_sigs = [] ∧
+    (∀ g s n, interp (envPrecompile g s) n precompileConvertERC20_fx_sigs = some (bankPart (precompileTokenIn .fx g s n))) ∧
+    (∀ g s n, interp (envPrecompile g s) n precompileConvertERC20_nativeCoin_sigs =
+        some (bankPart (precompileTokenIn .moduleOwned g s n))) ∧
+    (∀ g s n, interp (envPrecompile g s) n precompileConvertERC20_nativeERC20_sigs =
+        some (bankPart (precompileTokenIn .externalOwned g s n))) := by
+  refine ⟨?_, ?_, ?_, ?_, ?_, ?_, ?_, ?_, ?_, ?_, ?_, ?_, ?_⟩ <;> intros <;> rfl
+
+open FxVerif.Gen.C04 in
+/-- **translator tie for the composite functions**: the order in which `BridgeTokenToBaseCoin`, `BaseCoinToBridgeToken`,
+`IBCCoinToEvm` call the money-moving functions is regenerated and INTERPRETED — the composition is the model's flow; the
+outgoing pool moves `amount.Add(fee)`; and the IBC composites of the model (`depositIbc`: `SendToFxExecuted` →
+`transferIBCHandler`; `xibc`: the precompile's `ibcTransfer`) run base coin → voucher → ibc `Transfer` in the source order
+of those two functions -/
+theorem composites_follow_code_order :
+    (∀ k g c h n, composeFlow (FCall.bridgeFlow k g c h n true) bridgeTokenToBaseCoin_calls = some (bridgeTokenToBaseCoin k g c h n)) ∧
+    (∀ k g c h n, composeFlow (FCall.bridgeFlow k g c h n false) baseCoinToBridgeToken_calls = some (baseCoinToBridgeToken k g c h n)) ∧
+    (∀ k g h n, composeFlow (FCall.ibcInFlow k g h n) ibcCoinToEvm_calls = some (ibcCoinToBaseCoin g h n ++ convertCoin k g h h n)) ∧
+    addToOutgoingPool_calls = [.baseCoinToBridgeToken, .addUnbatchedTx] ∧ addToOutgoingPool_movesAmountPlusFee = true ∧
+    sendToFxExecuted_calls = [.bridgeTokenToBaseCoin, .transferIBCHandler, .baseCoinToEvm] ∧
+    (∀ cfg s c g u n, step3 cfg s (.depositIbc c g u n) =
+      (match step cfg s.s2.base (.deposit c g u n false) with
+       | .error e => .error e
+       | .ok b1 =>
+         match runIbcCalls cfg g u n transferIBCHandler_calls b1 with
+         | .error e => .error e
+         | .ok b3 => .ok { setBase s b3 with ibcOut := bump s.ibcOut g n })) ∧
+    (∀ cfg s g u n kp, 0 < n → cfg.kind g = some kp → step3 cfg s (.xibc g u n) =
+      (match run s.s2.base (precompileTokenIn kp g (U u) n) with
+       | .error e => .error e
+       | .ok b1 =>
+         match runIbcCalls cfg g u n precompileIbcTransfer_calls b1 with
+         | .error e => .error e
+         | .ok b3 => .ok { setBase s b3 with ibcOut := bump s.ibcOut g n })) := by
+  refine ⟨?_, ?_, ?_, rfl, rfl, rfl, ?_, ?_⟩
+  · intro k g c h n; cases k <;> rfl
+  · intro k g c h n; cases k <;> rfl
+  · intro k g h n; simp [composeFlow, FCall.ibcInFlow, ibcCoinToEvm_calls]
+  · intro cfg s c g u n
+    simp only [step3, transferIBCHandler_calls, runIbcCalls]
+    cases step cfg s.s2.base (.deposit c g u n false) with
+    | error e => rfl
+    | ok b1 =>
+      simp only []
+      cases stepIbc cfg b1 (.toIbc g u n) with
+      | error e => rfl
+      | ok b2 =>
+        simp only []
+        cases stepIbc cfg b2 (.xfer g u n) <;> rfl
+  · intro cfg s g u n kp hn hk
+    have hn0 : ¬ n = 0 := by omega
+    simp only [step3, precompileIbcTransfer_calls, runIbcCalls, hn0, ↓reduceIte, hk]
+    cases run s.s2.base (precompileTokenIn kp g (U u) n) with
+    | error e => rfl
+    | ok b1 =>
+      simp only []
+      cases stepIbc cfg b1 (.toIbc g u n) with
+      | error e => rfl
+      | ok b2 =>
+        simp only []
+        cases stepIbc cfg b2 (.xfer g u n) <;> rfl
+
+/-- the interpretation is not vacuous: a send to the erc20 module account (`types.ModuleName`) has no meaning inside the
+crosschain keeper's `ConversionCoin`, and an unknown expression stops the interpretation -/
+example : interp (envConversion 1 0 (U 0) true) 5 [⟨.sendAccToMod, .holder, .types_ModuleName, .coin⟩] = none ∧
+    interp (envConversion 1 0 (U 0) true) 5 [⟨.sendAccToMod, .holder, .k_moduleName, .other⟩] = none ∧
+    interp (envConversion 1 0 (U 0) true) 5 [⟨.sendAccToMod, .holder, .k_moduleName, .coin⟩] =
+      some [.send (.bridge 1 0) (U 0) (M 0) 5] := ⟨rfl, rfl, rfl⟩
 
 /-! ### batch life cycle: statement order of `RequestBatch` / `BuildOutgoingTxBatch`, cancel rule of
 `OutgoingTxBatchExecuted`, nonce rule of the bridge contracts — regenerated from the sources -/
@@ -468,6 +596,89 @@ theorem withdrawable_reachable_partial (cfg : Cfg) (L : Ledger) (hL : LedgerOk L
   simp only [step, Op.chain?, hc, ↓reduceIte, stepCore, hnz, hk, bind, Except.bind, hrun, pure, Except.pure]
   exact ⟨_, rfl⟩
 
+/-! ### module-owned tokens: exactly when a withdrawal is refused -/
+
+/-- **the escrow condition of a module-owned token, exactly**: `BaseCoinToBridgeToken` (the money flow of sendToExternal /
+an outgoing bridge call) of `n` of a module-owned token through chain `c` succeeds IF AND ONLY IF the holder has `n` base
+coins, the chain's module account holds `n` of THAT chain's bridge denomination, and the two supplies are at least `n`
+(true whenever supply bounds balances).  So the only way such a request is refused although the holder's balance
+suffices is a short escrow on that chain's module account — the known findings are precisely the two ways the escrow
+gets short (deposit through another chain; refund parked in the erc20 module account). -/
+theorem moduleOwned_withdraw_iff (g c u n : Nat) (L : Ledger)
+    (hown : L.owner (.base g) = none ∧ L.owner (.bridge g c) = none) :
+    (∃ L', runFlow (baseCoinToBridgeToken .moduleOwned g c (U u) n) L = .ok L') ↔
+      (n ≤ L.bal (.base g) (U u) ∧ n ≤ L.supply (.base g) ∧ n ≤ L.bal (.bridge g c) (M c) ∧ n ≤ L.supply (.bridge g c)) := by
+  have hne : ¬ (Addr.chainMod c = Addr.user u) := by simp
+  have hne' : ¬ (Addr.user u = Addr.chainMod c) := by simp
+  have hab : ¬ (Asset.bridge g c = Asset.base g) := by simp
+  have hba : ¬ (Asset.base g = Asset.bridge g c) := by simp
+  have hadd : ∀ a : Nat, ¬ (a + n < n) := by intro a; omega
+  simp only [baseCoinToBridgeToken, conversionCoin, withdrawBridgeToken, Bool.false_eq_true, ↓reduceIte, List.cons_append,
+    List.nil_append, U, M]
+  by_cases h1 : L.bal (.base g) (.user u) < n
+  · simp [runFlow, applyPrim, h1]; try omega
+  by_cases h2 : L.supply (.base g) < n
+  · simp [runFlow, applyPrim, h1, h2, ownerOk, hown.1, Ledger.setBal, Ledger.setSupply, upd, hne, hne', hadd]; try omega
+  by_cases h3 : L.bal (.bridge g c) (.chainMod c) < n
+  · simp [runFlow, applyPrim, h1, h2, h3, ownerOk, hown.1, hown.2, Ledger.setBal, Ledger.setSupply, upd, hne, hne', hab, hba, hadd]
+    try omega
+  by_cases h4 : L.supply (.bridge g c) < n
+  · simp [runFlow, applyPrim, h1, h2, h3, h4, ownerOk, hown.1, hown.2, Ledger.setBal, Ledger.setSupply, upd, hne, hne', hab, hba, hadd]
+    try omega
+  · simp [runFlow, applyPrim, h1, h2, h3, h4, ownerOk, hown.1, hown.2, Ledger.setBal, Ledger.setSupply, upd, hne, hne', hab, hba, hadd]
+    try omega
+
+/-- **for every reachable state**: from every initial ledger whose supplies bound its balances (`LedgerOk`), after every
+operation sequence, a holder's `MsgSendToExternal` of a module-owned token (positive amount and fee) through chain `c`
+succeeds iff `amount + fee` is at most the holder's base balance AND at most the bridge denomination escrowed in the
+module account of chain `c`.  This replaces the monitor-only treatment of module-owned withdrawability: together with
+`withdrawable_reachable_partial` (locking tokens: always) the refusals for lack of escrow are characterised for every
+ownership kind. -/
+theorem moduleOwned_send_iff (cfg : Cfg) (L : Ledger) (hL : LedgerOk L) (e0 : Nat → Nat → Nat) (ops : List Op)
+    (c g u n fee : Nat) (hk : bridged cfg g c = some .moduleOwned) (hn : 0 < n) (hf : 0 < fee) :
+    (∃ s', step cfg (runOps cfg (initE L e0) ops) (.send c g u n fee) = .ok s') ↔
+      (n + fee ≤ baseBal (runOps cfg (initE L e0) ops) g u ∧
+       n + fee ≤ (runOps cfg (initE L e0) ops).L.bal (.bridge g c) (M c)) := by
+  have hok := runOps_ledgerOk cfg ops (initE L e0) hL
+  generalize runOps cfg (initE L e0) ops = s at hok ⊢
+  obtain ⟨hbd, ho1, ho2⟩ := hok
+  have hs1 : s.L.bal (.base g) (U u) ≤ s.L.supply (.base g) := by
+    have := hbd (.base g) [U u] (by simp); simpa [sumL] using this
+  have hs2 : s.L.bal (.bridge g c) (M c) ≤ s.L.supply (.bridge g c) := by
+    have := hbd (.bridge g c) [M c] (by simp); simpa [sumL] using this
+  have hc : c < nChains := by
+    unfold bridged at hk; split at hk
+    · rename_i h; exact h.1
+    · cases hk
+  have hnz : ¬ (n = 0 ∨ fee = 0) := by omega
+  have key := moduleOwned_withdraw_iff g c u (n + fee) s.L ⟨ho1 g, ho2 g c⟩
+  simp only [step, Op.chain?, hc, ↓reduceIte, stepCore, hnz, hk, bind, Except.bind, pure, Except.pure, baseBal]
+  constructor
+  · rintro ⟨s', h⟩
+    cases hr : run s (baseCoinToBridgeToken .moduleOwned g c (U u) (n + fee)) with
+    | error e => simp [hr] at h
+    | ok s1 =>
+      obtain ⟨L', hL', _⟩ := run_ok hr
+      have := key.mp ⟨L', hL'⟩
+      omega
+  · intro h
+    obtain ⟨L', hL'⟩ := key.mpr ⟨h.1, by omega, h.2, by omega⟩
+    have hrun : run s (baseCoinToBridgeToken .moduleOwned g c (U u) (n + fee)) = .ok { s with L := L' } := by
+      simp only [run, hL']
+    simp only [hrun]
+    exact ⟨_, rfl⟩
+
+/-- non-vacuity / both directions on the witnesses: after a deposit of 10 through chain 0 the escrow there is 10 and a
+send of 5 + 1 succeeds; after the refunded bridge call of `withdrawable_fails_after_refund` the holder again has 10 base
+coins but the escrow of chain 0 is 0 (the 10 sit in the erc20 module account), and the same send is refused -/
+example :
+    let s1 := runOps cfgW (init ledgerW) [.deposit 0 1 1 10 false]
+    let s2 := runOps cfgW (init ledgerW) [.deposit 0 1 1 10 false, .bcout 0 1 1 [(1, 10)] false, .bcresult 0 1 false]
+    (decide (baseBal s1 1 1 = 10 ∧ s1.L.bal (.bridge 1 0) (M 0) = 10 ∧ baseBal s2 1 1 = 10 ∧
+        s2.L.bal (.bridge 1 0) (M 0) = 0 ∧ s2.L.bal (.bridge 1 0) E = 10) &&
+      (match step cfgW s1 (.send 0 1 1 5 1) with | .ok _ => true | _ => false) &&
+      isInsufficient (step cfgW s2 (.send 0 1 1 5 1))) = true := by decide
+
 /-- non-vacuity of `withdrawable_reachable_partial`: the ledger of the examples is `LedgerOk`, and after a history with
 a pending batch and a deposit user 0 still holds FX to send -/
 example : LedgerOk { ledgerE with bal := fun a x => if a = .base 0 ∧ x = U 0 then 1000 else 0, supply := fun a => if a = .base 0 then 1000 else 0 } := by
@@ -482,6 +693,177 @@ example : LedgerOk { ledgerE with bal := fun a x => if a = .base 0 ∧ x = U 0 t
       | nil => rfl
       | cons b bs ih => simp only [sumL]; rw [ih (List.nodup_cons.mp hn).2]; simp [ha]
     simp [this]
+
+/-! ### IBC aliases: a bridged token whose base denomination also has an IBC voucher -/
+
+/-- value of group `g` held by non-module accounts in every representation INCLUDING the IBC voucher (vouchers parked in
+the ibc-transfer module account do not count: they back base coins) -/
+def held3 (s : State) (g : Nat) : Int := (held3Obs g).val s.L
+
+/-- **no bridge operation touches an IBC voucher**: every successful operation of the base model (all 19 kinds, every
+chain) leaves every account's voucher balance and the voucher supply of every group unchanged -/
+theorem base_ops_never_touch_vouchers (cfg : Cfg) (s s' : State) (op : Op) (h : step cfg s op = .ok s') (g : Nat) :
+    (∀ x, s'.L.bal (voucher g) x = s.L.bal (voucher g) x) ∧ s'.L.supply (voucher g) = s.L.supply (voucher g) := by
+  constructor
+  · intro x
+    have := step_voucher_frame (balObs_sound (voucher g) x) (vbal_voucherOnly g x) cfg s s' op h
+    simp only [balObs] at this; omega
+  · have := step_voucher_frame (supplyObs_sound (voucher g)) (vsup_voucherOnly g) cfg s s' op h
+    simp only [supplyObs] at this; omega
+
+/-- **conservation with IBC aliases**: for every configuration, initial ledger, amount circulating outside, every history
+of the IBC layer (all base operations, parked claims with re-entrant contracts, packets received and sent, voucher ↔
+base coin conversions on either entry point, deposits routed on to IBC) and every token group:
+`held (voucher included) + inFlight = initial + deposits + vouchers received − executed withdrawals − vouchers sent`. -/
+theorem conservation_ibc (cfg : Cfg) (L : Ledger) (e0 : Nat → Nat → Nat) (ops : List Op3) (g : Nat) :
+    held3 (runOps3 cfg (init3 (initE L e0)) ops).s2.base g + (inFlight (runOps3 cfg (init3 (initE L e0)) ops).s2.base g : Int) =
+      held3 (initE L e0) g + ((runOps3 cfg (init3 (initE L e0)) ops).s2.base.deposited g : Int)
+        + ((runOps3 cfg (init3 (initE L e0)) ops).ibcIn g : Int)
+        - ((runOps3 cfg (init3 (initE L e0)) ops).s2.base.withdrawn g : Int)
+        - ((runOps3 cfg (init3 (initE L e0)) ops).ibcOut g : Int) := by
+  have h := runOps3_measure cfg ops (init3 (initE L e0)) g
+  simp only [measure3, measureV_eq] at h
+  have h0 : inFlight (init3 (initE L e0)).s2.base g = 0 := by simp [inFlight, init3, init2, initE, chainInFlight, poolValue]
+  have h1 : (init3 (initE L e0)).s2.base.deposited g = 0 := rfl
+  have h2 : (init3 (initE L e0)).s2.base.withdrawn g = 0 := rfl
+  have h3 : (init3 (initE L e0)).ibcIn g = 0 := rfl
+  have h4 : (init3 (initE L e0)).ibcOut g = 0 := rfl
+  have h5 : (init3 (initE L e0)).s2.base = initE L e0 := rfl
+  rw [h0, h1, h2, h3, h4, h5] at h
+  simp only [held3]
+  omega
+
+/-- holdings of account `x` in every representation of group `g`, the voucher included -/
+def holdings3 (L : Ledger) (g : Nat) (x : Addr) : Int := (acct3Obs g x).val L
+
+/-- **operations move only what they say, voucher included**: a base operation changes every holder's holdings (base
+coin, bridge denominations, ERC-20 and voucher together) by exactly `stated`; an IBC operation by exactly `stated3` (a
+received packet credits its receiver, a sent one debits its sender, the conversions voucher ↔ base coin [→ ERC-20]
+move nothing for anybody) -/
+theorem ibc_ops_move_only_what_they_say (cfg : Cfg) (s s' : State) (g : Nat) (x : Addr) (hx : Holder x) :
+    (∀ op, step cfg s op = .ok s' → holdings3 s'.L g x = holdings3 s.L g x + stated s op x g) ∧
+    (∀ op, stepIbc cfg s op = .ok s' → holdings3 s'.L g x = holdings3 s.L g x + stated3 op x g) :=
+  ⟨fun op h => step_holdings3 cfg s s' op g x hx h, fun op h => stepIbc_holdings3 cfg s s' op g x hx h⟩
+
+/-- configuration of the IBC examples: 5 = module-owned on chain 1 with an IBC voucher alias -/
+def cfgI : Cfg where
+  kind := fun g => match g with | 5 => some .moduleOwned | _ => none
+  onChain := fun g c => match g, c with | 5, 1 => true | _, _ => false
+  ibcAlias := fun g => g == 5
+
+def ledgerI : Ledger where
+  bal := fun _ _ => 0
+  supply := fun _ => 0
+  owner := fun a => match a with | .erc _ => some .erc20Mod | _ => none
+
+/-- non-vacuity of `conservation_ibc` / `ibc_ops_move_only_what_they_say`, and the escrow of the voucher is per route like
+that of a bridge denomination: 10 arrive by IBC for user 0 and are converted to the base coin (7 of them on into the
+ERC-20); 6 arrive through chain 1 for user 1; user 1 cannot turn base coins into vouchers beyond what is parked in the
+transfer module account (11 > 10 refused, 4 accepted and sent out); a deposit routed on to IBC passes through.  All
+counters non-zero, the equation holds with every term. -/
+example :
+    let s := runOps3 cfgI (init3 (init ledgerI))
+      [.ibc (.recv 5 0 10), .ibc (.toBase 5 0 3 false), .ibc (.toBase 5 0 7 true), .claim (.observe 1 1 (.deposit 5 1 6 false)),
+       .claim (.exec 1 1), .ibc (.toIbc 5 1 4), .ibc (.xfer 5 1 4), .depositIbc 1 5 2 5]
+    (decide (s.ibcIn 5 = 10 ∧ s.ibcOut 5 = 9 ∧ s.s2.base.deposited 5 = 11 ∧ s.s2.base.L.bal (voucher 5) T = 1 ∧
+        s.s2.base.L.bal (.base 5) (U 0) = 3 ∧ s.s2.base.L.bal (.erc 5) (U 0) = 7 ∧ s.s2.base.L.bal (.base 5) (U 1) = 2 ∧
+        s.s2.base.L.bal (.base 5) T = 0 ∧ s.s2.base.L.supply (voucher 5) = 1) &&
+      (match step3 cfgI s (.ibc (.toIbc 5 1 2)) with | .error .insufficient => true | _ => false) &&
+      (match step3 cfgI s (.ibc (.toIbc 5 1 1)) with | .ok _ => true | _ => false)) = true := by decide
+
+/-- the hypotheses of `moduleOwned_send_iff` are jointly satisfiable: the empty ledger of the IBC examples is `LedgerOk`, group 5
+is module-owned and bridged on chain 1 -/
+example : LedgerOk ledgerI ∧ bridged cfgI 5 1 = some .moduleOwned := by
+  refine ⟨⟨?_, fun _ => rfl, fun _ _ => rfl⟩, by decide⟩
+  intro a l _
+  have : ∀ l : List Addr, sumL (ledgerI.bal a) l = 0 := by
+    intro l
+    induction l with
+    | nil => rfl
+    | cons b bs ih => simp only [sumL, ih]; rfl
+  simp [this l]
+
+/-- **the ibc-transfer module account keeps no base coin**: in every history of all layers its balance of every group's
+base coin is what it was initially — every base coin it mints (`IBCCoinToBaseCoin`) is paid out, every base coin it receives
+(`BaseCoinToIBCCoin`) is burned, and no bridge operation ever names that account (the base model's flows name neither a
+voucher nor the ibc-transfer module account: `opFlow_clean`) -/
+theorem transfer_module_keeps_no_base_coin (cfg : Cfg) (L : Ledger) (e0 : Nat → Nat → Nat) (ops : List Op3) (g : Nat) :
+    (runOps3 cfg (init3 (initE L e0)) ops).s2.base.L.bal (.base g) T = L.bal (.base g) T := by
+  have h := runOps3_tbase cfg ops (init3 (initE L e0)) g
+  have h5 : (init3 (initE L e0)).s2.base.L = L := rfl
+  rw [h5] at h
+  simp only [tbaseObs, balObs] at h
+  omega
+
+/-- **the IBC route, exactly**: `BaseCoinToIBCCoin` of `n` succeeds IF AND ONLY IF the holder has `n` base coins, the supply
+is at least `n`, and `n` vouchers are parked in the ibc-transfer module account — the voucher is one more alias whose escrow
+is per route, exactly like a bridge denomination (`moduleOwned_withdraw_iff`); value that came in through a bridge chain
+cannot leave through IBC beyond what came in through IBC and vice versa (the example above shows both directions) -/
+theorem ibc_route_iff (g u n : Nat) (L : Ledger) (hown : L.owner (.base g) = none) :
+    (∃ L', runFlow (baseCoinToIBCCoin g (U u) n) L = .ok L') ↔
+      (n ≤ L.bal (.base g) (U u) ∧ n ≤ L.supply (.base g) ∧ n ≤ L.bal (voucher g) T) := by
+  have hne : ¬ (Addr.chainMod 3 = Addr.user u) := by simp
+  have hne' : ¬ (Addr.user u = Addr.chainMod 3) := by simp
+  have hab : ¬ (Asset.bridge g 3 = Asset.base g) := by simp
+  have hba : ¬ (Asset.base g = Asset.bridge g 3) := by simp
+  have hadd : ∀ a : Nat, ¬ (a + n < n) := by intro a; omega
+  simp only [baseCoinToIBCCoin, U, T, voucher, ibcRoute]
+  by_cases h1 : L.bal (.base g) (.user u) < n
+  · simp [runFlow, applyPrim, h1]; try omega
+  by_cases h2 : L.supply (.base g) < n
+  · simp [runFlow, applyPrim, h1, h2, ownerOk, hown, Ledger.setBal, Ledger.setSupply, upd, hne, hne', hadd]; try omega
+  by_cases h3 : L.bal (.bridge g 3) (.chainMod 3) < n
+  · simp [runFlow, applyPrim, h1, h2, h3, ownerOk, hown, Ledger.setBal, Ledger.setSupply, upd, hne, hne', hab, hba, hadd]
+    try omega
+  · simp [runFlow, applyPrim, h1, h2, h3, ownerOk, hown, Ledger.setBal, Ledger.setSupply, upd, hne, hne', hab, hba, hadd]
+    try omega
+
+/-! ### module-owned tokens: every base coin is backed by an escrowed alias -/
+
+/-- aliases of group `g` escrowed on fxcore: the bridge denominations in the three chain module accounts and in the erc20
+module account (the older conversion system's escrow, also used by bridge-call refunds), and the IBC vouchers parked in
+the ibc-transfer module account -/
+def escrowed (L : Ledger) (g : Nat) : Nat :=
+  L.bal (.bridge g 0) (M 0) + L.bal (.bridge g 1) (M 1) + L.bal (.bridge g 2) (M 2) +
+  L.bal (.bridge g 0) E + L.bal (.bridge g 1) E + L.bal (.bridge g 2) E + L.bal (voucher g) T
+
+/-- **solvency of module-owned tokens on the fxcore side**: for every configuration, initial ledger, and history of the
+IBC layer (all 19 base operations on every chain, parked claims executed by anybody with re-entrant contracts, packets
+received and sent, voucher ↔ base conversions, deposits routed on to IBC), for every MODULE-OWNED group:
+`supply(base coin) − escrowed aliases` never changes.  In particular, starting from a ledger where the two are equal
+(e.g. nothing issued yet), in every reachable state every base coin in existence — held as coin or ERC-20 by anybody,
+queued, batched or in a bridge call — is backed one-to-one by a bridge denomination or voucher escrowed in a module
+account.  (`escrow_exact` is the corresponding statement for locking tokens.)  WHICH account holds the escrow is what
+decides withdrawability through a given route: `moduleOwned_send_iff`. -/
+theorem moduleOwned_backing (cfg : Cfg) (L : Ledger) (e0 : Nat → Nat → Nat) (ops : List Op3) (g : Nat)
+    (hk : cfg.kind g = some .moduleOwned) :
+    ((runOps3 cfg (init3 (initE L e0)) ops).s2.base.L.supply (.base g) : Int)
+        - escrowed (runOps3 cfg (init3 (initE L e0)) ops).s2.base.L g =
+      (L.supply (.base g) : Int) - escrowed L g := by
+  have h := runOps3_back cfg g hk ops (init3 (initE L e0))
+  have h5 : (init3 (initE L e0)).s2.base.L = L := rfl
+  rw [h5] at h
+  simp only [backObs, escrowedObs, Obs.add, Obs.neg, Obs.sum, Obs.zero, supplyObs, balObs] at h
+  simp only [escrowed]
+  omega
+
+/-- … so with nothing issued initially, supply and escrow are equal for ever -/
+theorem moduleOwned_fully_backed (cfg : Cfg) (L : Ledger) (e0 : Nat → Nat → Nat) (ops : List Op3) (g : Nat)
+    (hk : cfg.kind g = some .moduleOwned) (h0 : L.supply (.base g) = escrowed L g) :
+    (runOps3 cfg (init3 (initE L e0)) ops).s2.base.L.supply (.base g) =
+      escrowed (runOps3 cfg (init3 (initE L e0)) ops).s2.base.L g := by
+  have := moduleOwned_backing cfg L e0 ops g hk
+  omega
+
+/-- non-vacuity: the history of the IBC example issues 10 + 6 + 5 − 4 − 5 base coins backed by 1 parked voucher and 11
+escrowed bridge coins; a refunded bridge call moves escrow into the erc20 module account and the equation still holds -/
+example :
+    let s := runOps3 cfgI (init3 (init ledgerI))
+      [.ibc (.recv 5 0 10), .ibc (.toBase 5 0 3 false), .ibc (.toBase 5 0 7 true), .claim (.observe 1 1 (.deposit 5 1 6 false)),
+       .claim (.exec 1 1), .ibc (.toIbc 5 1 4), .ibc (.xfer 5 1 4), .depositIbc 1 5 2 5,
+       .claim (.base (.bcout 1 1 1 [(5, 2)] false)), .claim (.observe 1 2 (.result 1 false)), .claim (.exec 1 2)]
+    decide (s.s2.base.L.supply (.base 5) = 12 ∧ escrowed s.s2.base.L 5 = 12 ∧ s.s2.base.L.bal (voucher 5) T = 1 ∧
+      s.s2.base.L.bal (.bridge 5 1) (M 1) = 9 ∧ s.s2.base.L.bal (.bridge 5 1) E = 2) = true := by decide
 
 /-! ### claim layer: observed claims are parked and executed through `executeClaim`, possibly re-entrantly -/
 
@@ -523,6 +905,14 @@ theorem deposit_credited_once (cfg : Cfg) (s0 : State) (ops : List Op2) (c nonce
     creditedFor (runOps2 cfg (init2 s0) ops) c nonce g ≤ claimedFor (runOps2 cfg (init2 s0) ops) c nonce g ∧
     (pendingOn (runOps2 cfg (init2 s0) ops) c nonce → creditedFor (runOps2 cfg (init2 s0) ops) c nonce g = 0) := by
   have hi := runOps2_cred cfg ops (init2 s0) (init2_cred s0)
+  exact ⟨hi.le_claimed c nonce g, hi.pend_zero c nonce g⟩
+
+/-- … for every history of the IBC layer as well (the IBC operations and deposits routed on to IBC never touch the pending
+store or what handlers credited) -/
+theorem deposit_credited_once_ibc (cfg : Cfg) (s0 : State) (ops : List Op3) (c nonce g : Nat) :
+    creditedFor (runOps3 cfg (init3 s0) ops).s2 c nonce g ≤ claimedFor (runOps3 cfg (init3 s0) ops).s2 c nonce g ∧
+    (pendingOn (runOps3 cfg (init3 s0) ops).s2 c nonce → creditedFor (runOps3 cfg (init3 s0) ops).s2 c nonce g = 0) := by
+  have hi := runOps3_cred cfg ops (init3 s0) (init2_cred s0)
   exact ⟨hi.le_claimed c nonce g, hi.pend_zero c nonce g⟩
 
 /-- … and the order matters: with "look up, handle, delete", a bridge call to a contract that re-enters
